@@ -7,10 +7,14 @@ package gocvss40
 // unexported helpers; no existing code is changed.
 
 // VerifBytes returns the packed representation of c.
-func VerifBytes(c *CVSS40) [9]uint8 { return [9]uint8{c.u0, c.u1, c.u2, c.u3, c.u4, c.u5, c.u6, c.u7, c.u8} }
+func VerifBytes(c *CVSS40) [9]uint8 {
+	return [9]uint8{c.u0, c.u1, c.u2, c.u3, c.u4, c.u5, c.u6, c.u7, c.u8}
+}
 
 // VerifFromBytes builds an object from a packed representation (any bytes).
-func VerifFromBytes(b [9]uint8) *CVSS40 { return &CVSS40{u0: b[0], u1: b[1], u2: b[2], u3: b[3], u4: b[4], u5: b[5], u6: b[6], u7: b[7], u8: b[8]} }
+func VerifFromBytes(b [9]uint8) *CVSS40 {
+	return &CVSS40{u0: b[0], u1: b[1], u2: b[2], u3: b[3], u4: b[4], u5: b[5], u6: b[6], u7: b[7], u8: b[8]}
+}
 
 // VerifLenVec exposes lenVec, the pre-computed length used by Vector.
 func VerifLenVec(c *CVSS40) int { return lenVec(c) }
